@@ -648,17 +648,18 @@ class cst(exp):
 
     @_checkarg_numeric
     def __rshift__(self, n):
-        self.sf = False  # rshift implements logical right shift
+        # rshift implements logical right shift (of the unsigned value)
         if n._is_cst:
-            return cst(self.value >> n.value, self.size)
+            return cst(self.v >> n.value, self.size)
         else:
             return exp.__rshift__(self, n)
 
     @_checkarg_numeric
     def __floordiv__(self, n):
-        self.sf = True  # floordiv implements arithmetic right shift
+        # floordiv implements arithmetic right shift (of the signed value)
         if n._is_cst:
-            return cst(self.value >> n.value, self.size)
+            v = self.v - (self.v >> (self.size - 1) << self.size)
+            return cst(v >> n.value, self.size)
         else:
             return exp.__floordiv__(self, n)
 
